@@ -66,6 +66,7 @@ def configs(draw, tier):
             # (kind gen) the generator function returns a complete, but not a native, asynchronous generator
             "gen_wrap": draw(st.sampled_from([False, False, True])),
             "factory_arg": draw(st.sampled_from(["tag", "tag", "corofn"])),
+            "falsy_manager": draw(st.booleans()),
             "choices": draw(st.lists(st.integers(0, 3), max_size=40))}
 
 
@@ -134,6 +135,10 @@ def run_config(case, impl, choices=None, default="rr"):
 
         def __init__(self):
             self.busy = False
+
+        if case.get("falsy_manager"):
+            def __len__(self):
+                return 0  # (a manager that is also an - empty - collection: falsy, a manager all the same)
 
         def _recreate_cm(self):
             return self if not self.busy else type(self)()
